@@ -752,3 +752,9 @@ Definition get_format_suffixes (filename : str) : option str * option str :=
       | None => (Some lst, None)
       end
   end.
+
+(* ------------------------------------------------------------------ source variant after fix C06-8b *)
+(** iter_fasta_records(bytes) with [if b"\r" in data and b"\n" not in data: data = data.replace(b"\r", b"\n")] *)
+Definition cr_only_to_nl (data : str) : str :=
+  if existsb (Z.eqb 13) data && negb (existsb (Z.eqb NL) data) then map (fun c => if c =? 13 then NL else c) data else data.
+Definition bytes_parser_fixed_cr (data : str) : list rec := bytes_parser_fixed (cr_only_to_nl data).
